@@ -397,7 +397,7 @@ pub const DEF: PropertyDef = PropertyDef {
     rule: "exhaustive_small: every shape with <= 3 (thorough 4) lines x <= 4 tokens per line x every subset of range flags x {consecutive, \
            gapped lines}, routes cycled. random: 1..7 lines with gaps, 0..45(90), sometimes 60..150(400) or 255..1025 tokens per line with token counts forced onto 15..18 and \
            31..34, exact duplicates, sourceless range tokens, forced first/last/all-range lines. Oracles: decode of an independently written \
-           document, independent reading of the emitted mappings+rangeMappings, flags after ser+decode, lookup shift model. Non-trivial = \
+           document, independent reading of the emitted mappings+rangeMappings, flags after ser+decode, lookup shift model. Random maps carry contents / root / ignore list / debug id / file next to the range flags; on every looked-up token (get_src_line,get_src_col), get_src(), to_tuple() and the DecodedMap-level lookup must agree. Non-trivial = \
            >= 1 range and >= 1 non-range token on >= 2 lines",
     assumptions: &[
         "documents are written without empty segments (how a range bit counts empty segments is not stated)",
